@@ -61,6 +61,22 @@ func (vc *FuncVC) genOnce() {
 	entry := &State{m: map[string]string{}}
 	alloc0 := f.get(entry, vc.allocKey())
 	vc.assume(S("<=", "0", alloc0))
+	{
+		// the heap at entry holds no reference to an object not yet allocated
+		var ks []string
+		for k := range vc.universe {
+			ks = append(ks, k)
+		}
+		sort.Strings(ks)
+		for _, k := range ks {
+			if strings.HasPrefix(k, "L:") || strings.HasPrefix(k, "it:") {
+				continue
+			}
+			if wf := vc.heapWF(k, vc.initial(k), alloc0); wf != "" {
+				vc.assume(wf)
+			}
+		}
+	}
 	var args []string
 	for _, p := range fn.Params {
 		t := vc.fresh("p_"+p.Name(), vc.eng.sortOf(p.Type()))
@@ -189,6 +205,13 @@ func (vc *FuncVC) genOnce() {
 		}
 	}
 	f.curReach = "true"
+	if len(spec.Ensures) > 0 && len(f.rets) > 0 {
+		var rr []string
+		for _, r := range f.rets {
+			rr = append(rr, r.reach)
+		}
+		f.probeAt("returns/vacuity", Or(rr...))
+	}
 	for i, en := range spec.Ensures {
 		if len(ensGoals[i]) == 0 {
 			continue
@@ -235,6 +258,22 @@ func (f *Frame) probe(name string) {
 	}
 	vc.obls = append(vc.obls, &Obligation{Name: full, Fn: vc.key, Kind: "vacuity", Goal: Imp(f.curReach, "false"), Upto: len(vc.script.lines),
 		Props: props, vc: vc, Probe: true, Text: "assumptions are satisfiable"})
+}
+
+// probeAt records a vacuity probe under a path condition.
+func (f *Frame) probeAt(name, cond string) {
+	vc := f.vc
+	full := vc.key + "/" + f.idPrefixForName() + name
+	vc.oblNames[full]++
+	if n := vc.oblNames[full]; n > 1 {
+		full = fmt.Sprintf("%s~%d", full, n)
+	}
+	var props []string
+	if vc.spec != nil {
+		props = vc.spec.Props
+	}
+	vc.obls = append(vc.obls, &Obligation{Name: full, Fn: vc.key, Kind: "vacuity", Goal: Imp(cond, "false"), Upto: len(vc.script.lines),
+		Props: props, vc: vc, Probe: true, Text: "assumptions along this path are satisfiable"})
 }
 
 // frameObligations: every state key the body changed must be covered by the
